@@ -18,7 +18,7 @@ __CPROVER_ensures((ev_uint32_t)__CPROVER_return_value == state->seed)
 ;
 
 VF_CONTRACT(ev_int32_t, weakrand_range_c, struct evutil_weakrand_state *state, ev_int32_t top)
-__CPROVER_requires(__CPROVER_is_fresh(state, sizeof(*state)))
+__CPROVER_requires(__CPROVER_rw_ok(state, sizeof(*state)))
 __CPROVER_requires(top >= 1)
 __CPROVER_assigns(state->seed)
 __CPROVER_ensures(__CPROVER_return_value >= 0 && __CPROVER_return_value < top)
